@@ -87,7 +87,7 @@ theorem C46_spec_roundtrip_partial (env : Env) (h : Hdr) (pay : Bytes) (limit : 
     obtain ⟨ha, hb, hp, hq, hia, hib, hma, hmb, hsp, hdp⟩ := hc
     have h1 : parseV1IP env 0x11 a = some (some ia) := by simp [parseV1IP, hia, hma]
     have h2 : parseV1IP env 0x11 b = some (some ib) := by simp [parseV1IP, hib, hmb]
-    rw [connRun_prefix env _ pay limit e _ hl (fun rest => readHeader_v1_tcp env tokTCP4 a b p q rest 0x11 _ _ sp dp
+    rw [connRun_prefix env _ pay limit e _ hl (fun rest _ => readHeader_v1_tcp env tokTCP4 a b p q rest 0x11 _ _ sp dp
       (Or.inl ⟨rfl, rfl⟩) ha hb hp hq h1 h2 (goPort_of_specPort _ _ hsp) (goPort_of_specPort _ _ hdp))]
     simp [connOf, resolve, hma, hmb, acceptObs, Hdr.addrs, Hdr.encode]
   | v1tcp6 a b p q ia ib sp dp =>
@@ -95,12 +95,12 @@ theorem C46_spec_roundtrip_partial (env : Env) (h : Hdr) (pay : Bytes) (limit : 
     obtain ⟨hma, hmb⟩ := hs
     have h1 : parseV1IP env 0x21 a = some (some ia) := by simp [parseV1IP, hia, hma]
     have h2 : parseV1IP env 0x21 b = some (some ib) := by simp [parseV1IP, hib, hmb]
-    rw [connRun_prefix env _ pay limit e _ hl (fun rest => readHeader_v1_tcp env tokTCP6 a b p q rest 0x21 _ _ sp dp
+    rw [connRun_prefix env _ pay limit e _ hl (fun rest _ => readHeader_v1_tcp env tokTCP6 a b p q rest 0x21 _ _ sp dp
       (Or.inr ⟨rfl, rfl⟩) ha hb hp hq h1 h2 (goPort_of_specPort _ _ hsp) (goPort_of_specPort _ _ hdp))]
     simp [connOf, resolve, hma, hmb, acceptObs, Hdr.addrs, Hdr.encode]
   | v1unknown junk =>
     obtain ⟨hj, hlf, _⟩ := hc
-    rw [connRun_prefix env _ pay limit e _ hl (fun rest => readHeader_v1_unknown env junk rest hj hlf)]
+    rw [connRun_prefix env _ pay limit e _ hl (fun rest _ => readHeader_v1_unknown env junk rest hj hlf)]
     simp [connOf, acceptObs, Hdr.addrs, Hdr.encode]
   | v2tcp4 src dst sp dp tlv =>
     obtain ⟨h4s, h4d, hsp, hdp, _⟩ := hc
@@ -108,18 +108,18 @@ theorem C46_spec_roundtrip_partial (env : Env) (h : Hdr) (pay : Bytes) (limit : 
     have hmd : isV4Mapped (to16 dst) = true := by simp [isV4Mapped, to16, h4d]
     have hlen : (encodeV2 0x21 0x11 (addrBlock src dst sp dp ++ tlv)).length = 16 + (12 + tlv.length) := by
       rw [encodeV2_length]; simp [addrBlock, h4s, h4d]; omega
-    rw [connRun_prefix env _ pay limit e _ hl (fun rest => readHeader_v2_tcp4 env src dst sp dp tlv rest h4s h4d hsp hdp hs)]
+    rw [connRun_prefix env _ pay limit e _ hl (fun rest _ => readHeader_v2_tcp4 env src dst sp dp tlv rest h4s h4d hsp hdp hs)]
     simp [connOf, resolve, hms, hmd, acceptObs, Hdr.addrs, Hdr.encode, ← hlen]
   | v2tcp6 src dst sp dp tlv =>
     obtain ⟨h6s, h6d, hsp, hdp, _⟩ := hc
     obtain ⟨hb, hms, hmd⟩ := hs
     have hlen : (encodeV2 0x21 0x21 (addrBlock src dst sp dp ++ tlv)).length = 16 + (36 + tlv.length) := by
       rw [encodeV2_length]; simp [addrBlock, h6s, h6d]; omega
-    rw [connRun_prefix env _ pay limit e _ hl (fun rest => readHeader_v2_tcp6 env src dst sp dp tlv rest h6s h6d hsp hdp hb)]
+    rw [connRun_prefix env _ pay limit e _ hl (fun rest _ => readHeader_v2_tcp6 env src dst sp dp tlv rest h6s h6d hsp hdp hb)]
     simp [connOf, resolve, hms, hmd, acceptObs, Hdr.addrs, Hdr.encode, ← hlen]
   | v2local fam block =>
     obtain ⟨hf, _⟩ := hc
-    rw [connRun_prefix env _ pay limit e _ hl (fun rest => readHeader_v2_local env fam block rest hf hs)]
+    rw [connRun_prefix env _ pay limit e _ hl (fun rest _ => readHeader_v2_local env fam block rest hf hs)]
     simp [connOf, acceptObs, Hdr.addrs, Hdr.encode, ← encodeV2_length 0x20 fam block]
 
 /-! ### the excluded classes really fail (so `_partial` cannot be strengthened without changing the code) -/
@@ -129,7 +129,7 @@ theorem C46_v2_oversize_rejected (env : Env) (vc fam : UInt8) (block pay : Bytes
     (hlen : bufSize < block.length) (h16 : block.length < 65536)
     (hl : (encodeV2 vc fam block).length ≤ effLimit limit) :
     connRun env (encodeV2 vc fam block ++ pay) limit e = rejectObs none := by
-  rw [connRun_prefix env _ pay limit e _ hl (fun rest => readHeader_v2_oversize env vc fam block rest hlen h16)]
+  rw [connRun_prefix env _ pay limit e _ hl (fun rest _ => readHeader_v2_oversize env vc fam block rest hlen h16)]
   rfl
 
 theorem C46_witness_v2_oversize : ¬ C46_spec_roundtrip_full := by
@@ -177,8 +177,8 @@ theorem C46_malformed_closes_v2 (env : Env) (vc fam : UInt8) (block pay : Bytes)
     (h16 : block.length < 65536) (hl : (encodeV2 vc fam block).length ≤ effLimit limit)
     (hbad : (vc ≠ 0x20 ∧ vc ≠ 0x21) ∨ specFam fam = false ∨ (vc = 0x21 ∧ block.length < specAddrLen fam)) :
     connRun env (encodeV2 vc fam block ++ pay) limit e = rejectObs none := by
-  have hR : ∀ rest, readHeader env (encodeV2 vc fam block ++ rest) = .err := by
-    intro rest
+  have hR : ∀ rest a, readHeader env (encodeV2 vc fam block ++ rest) a = .err := by
+    intro rest a
     have hb16 := be16_hi_lo block.length h16
     simp only [readHeader, encodeV2, sigV2, sigV1, parseV2]
     simp
@@ -208,25 +208,44 @@ theorem C46_malformed_closes_v2 (env : Env) (vc fam : UInt8) (block pay : Bytes)
   rw [connRun_prefix env _ pay limit e _ hl hR]
   rfl
 
-/-- **v2, malformed never accepted**: if a stream that begins with the v2 signature is not rejected, then it IS the
-    spec encoding of a well-formed header (version 2, command LOCAL/PROXY, assigned family, length covering the
-    address block, whole block present) followed by some payload, and exactly that payload is handed over. -/
+/-- **v2, malformed never accepted**: if a stream that begins with the v2 signature is not rejected (header limit
+    at least the 16-byte v2 prefix), then it IS the spec encoding of a well-formed header (version 2, command
+    LOCAL/PROXY, assigned family, length covering the address block, whole block present) followed by some payload,
+    and exactly that payload is handed over — or it is the legacy 13-byte LOCAL form `sig 20` with the peer closing
+    right behind it, in which case nothing is handed over (kept for bfe's existing test fixture). -/
 theorem C46_malformed_closes_v2_sound (env : Env) (t : Bytes) (limit : Nat) (e : EndK)
+    (hlim : 16 ≤ effLimit limit)
     (hopen : (connRun env (sigV2 ++ t) limit e).closed = false) :
+    (t = [0x20] ∧ e = .eof ∧ (connRun env (sigV2 ++ t) limit e).data = []) ∨
     ∃ vc fam block pay,
       sigV2 ++ t = encodeV2 vc fam block ++ pay ∧ block.length < 65536 ∧
       ((vc = 0x20 ∧ (fam = 0x00 ∨ supportedFam fam = true)) ∨
        (vc = 0x21 ∧ supportedFam fam = true ∧ validLen fam block.length = true)) ∧
       (connRun env (sigV2 ++ t) limit e).data = pay := by
   unfold connRun at hopen ⊢
-  by_cases hL : 12 ≤ effLimit limit
-  · have hvis : (sigV2 ++ t).take (effLimit limit) = sigV2 ++ t.take (effLimit limit - 12) := by
-      rw [take_prefix_ge sigV2 t _ (by simpa [sigV2] using hL)]; simp [sigV2]
-    rw [hvis] at hopen ⊢
-    have hne : readHeader env (sigV2 ++ t.take (effLimit limit - 12)) ≠ .err := by
-      intro hh; rw [hh] at hopen; simp [connOf, rejectObs] at hopen
-    obtain ⟨vc, fam, block, rest, n, henc, h16, hn, _, hcase⟩ :=
-      readHeader_v2_sound env _ _ rfl hne
+  have hvis : (sigV2 ++ t).take (effLimit limit) = sigV2 ++ t.take (effLimit limit - 12) := by
+    rw [take_prefix_ge sigV2 t _ (by simp [sigV2]; omega)]; simp [sigV2]
+  rw [hvis] at hopen ⊢
+  have hne : readHeader env (sigV2 ++ t.take (effLimit limit - 12)) (atEOFOf (sigV2 ++ t) limit e) ≠ .err := by
+    intro hh; rw [hh] at hopen; simp [connOf, rejectObs] at hopen
+  rcases readHeader_v2_sound env _ _ _ rfl hne with ⟨ht, ha, hr⟩ | ⟨vc, fam, block, rest, n, henc, h16, hn, _, hcase⟩
+  · left
+    have htl : t = [0x20] := by
+      have hlen := congrArg List.length ht
+      simp at hlen
+      have : t.length = 1 := by omega
+      rw [List.take_of_length_le (by omega)] at ht
+      exact ht
+    subst htl
+    have he : e = .eof := by
+      simp [atEOFOf, sigV2] at ha
+      rcases ha with h | h
+      · omega
+      · exact h
+    refine ⟨rfl, he, ?_⟩
+    rw [hr]
+    simp [connOf, sigV2]
+  · right
     have hstream : sigV2 ++ t = encodeV2 vc fam block ++ (rest ++ t.drop (effLimit limit - 12)) := by
       rw [← List.append_assoc, ← henc, List.append_assoc, List.take_append_drop]
     have hdrop : (sigV2 ++ t).drop n = rest ++ t.drop (effLimit limit - 12) := by
@@ -244,26 +263,21 @@ theorem C46_malformed_closes_v2_sound (env : Env) (t : Bytes) (limit : Nat) (e :
       · rw [hd]
         rcases hcase with ⟨_, _, hr⟩ | ⟨_, _, _, s', d', sp', dp', hr⟩ <;> rw [hr] at hm <;> cases hm
         exact hdrop
-  · exfalso
-    have hlt : ((sigV2 ++ t).take (effLimit limit)).length < 12 := by
-      simp; omega
-    have hpos : 0 < effLimit limit := by unfold effLimit defaultLimit; split <;> omega
-    have herr : readHeader env ((sigV2 ++ t).take (effLimit limit)) = .err := by
-      have hform : ∃ r, (sigV2 ++ t).take (effLimit limit) = 0x0D :: r := by
-        match hl : effLimit limit with
-        | 0 => omega
-        | k + 1 => exact ⟨((sigV2 ++ t).drop 1).take k, by simp [sigV2]⟩
-      obtain ⟨r, hr⟩ := hform
-      rw [hr] at hlt ⊢
-      have hlt' : r.length + 1 < 12 := by simpa using hlt
-      have hne : ¬ ((0x0D : UInt8) :: List.take 4 r = sigV1) := by simp [sigV1]
-      unfold readHeader
-      simp only []
-      by_cases h5 : (0x0D :: r).length < 5
-      · simp [h5]; intro h4; simp at h5; omega
-      · simp [h5, hne, hlt']
-    rw [herr] at hopen
-    simp [connOf, rejectObs] at hopen
+
+/-- the legacy 13-byte LOCAL form followed by EOF is accepted with the socket addresses and an empty payload;
+    followed by silence it is rejected -/
+theorem C46_legacy_local13 (env : Env) (limit : Nat) (hlim : 16 ≤ effLimit limit) :
+    connRun env (sigV2 ++ [0x20]) limit .eof = { src := none, dst := none, data := [], fin := .eof, closed := false } ∧
+    connRun env (sigV2 ++ [0x20]) limit .stall = rejectObs none := by
+  have hv : (sigV2 ++ [0x20]).take (effLimit limit) = sigV2 ++ [0x20] :=
+    List.take_of_length_le (by simp [sigV2]; omega)
+  have ha : atEOFOf (sigV2 ++ [0x20]) limit .stall = false := by
+    simp [atEOFOf, sigV2]; omega
+  constructor
+  · unfold connRun; rw [hv]
+    have : atEOFOf (sigV2 ++ [0x20]) limit .eof = true := by simp [atEOFOf]
+    rw [this]; simp [connOf, readHeader, parseV2, sigV2, sigV1, finOf]
+  · unfold connRun; rw [hv, ha]; simp [connOf, readHeader, parseV2, sigV2, sigV1, rejectObs]
 
 /-- known findings `v1-extra-token`, `v1-port-syntax`, `v1-sig-suffix`: malformed v1 lines the code accepts -/
 def envAny4 : Env := ⟨fun _ => some (to16 [1, 2, 3, 4])⟩
@@ -295,7 +309,7 @@ theorem C46_passthrough_partial (env : Env) (stream : Bytes) (limit : Nat) (e : 
   unfold connRun
   have ht : ∀ k, k ≤ 12 → (stream.take (effLimit limit)).take k = stream.take k := by
     intro k hk; rw [List.take_take]; congr 1; omega
-  have hv : readHeader env (stream.take (effLimit limit)) = .noProxy := by
+  have hv : readHeader env (stream.take (effLimit limit)) (atEOFOf stream limit e) = .noProxy := by
     apply readHeader_nosig
     · intro h; apply hne
       have := congrArg List.length h
